@@ -496,6 +496,98 @@ func (it *Interp) textModel(st *state, name string, c *ssa.CallCommon, args []Va
 			return TupleV{res, NilV{}}, true
 		}
 		return TupleV{res, ErrV{okN}}, true
+	case "(*strings.Builder).Grow":
+		return TupleV{}, true
+	case "(*strings.Builder).WriteString", "(*strings.Builder).WriteByte", "(*strings.Builder).WriteRune", "(*strings.Builder).Write":
+		bp, ok := args[0].(Ptr)
+		if !ok {
+			return nil, false
+		}
+		cur, _ := st.mem[bp.Obj][bp.Path+".#text"].(StrV)
+		cs, okC := toCharsOf(it, cur)
+		if !okC {
+			cs = nil // a new builder holds the empty text
+		}
+		var add []BV
+		switch a := args[1].(type) {
+		case StrV:
+			ac, okA := toCharsOf(it, a)
+			if !okA {
+				return nil, false
+			}
+			add = ac
+		case BV:
+			if a.W > 8 {
+				if v, isC := a.IsConst(); !isC || v > 127 {
+					return nil, false
+				}
+				a = it.constBV(func() uint64 { v, _ := a.IsConst(); return v }(), 8)
+			}
+			add = []BV{a}
+		case SliceV:
+			if a.Len < 0 {
+				return nil, false
+			}
+			for i := 0; i < a.Len; i++ {
+				b, okB := it.load(st, it.sliceElemPtr(a, i), types.Typ[types.Uint8]).(BV)
+				if !okB {
+					return nil, false
+				}
+				add = append(add, b)
+			}
+		default:
+			return nil, false
+		}
+		if st.mem[bp.Obj] == nil {
+			st.mem[bp.Obj] = map[string]Value{}
+		}
+		st.mem[bp.Obj][bp.Path+".#text"] = StrV{Sym: true, Chars: append(append([]BV{}, cs...), add...)}
+		n := it.constBV(uint64(len(add)), 64).signed()
+		switch name {
+		case "(*strings.Builder).WriteByte":
+			return NilV{}, true
+		}
+		return TupleV{n, NilV{}}, true
+	case "(*strings.Builder).String", "(*strings.Builder).Len":
+		bp, ok := args[0].(Ptr)
+		if !ok {
+			return nil, false
+		}
+		cur, has := st.mem[bp.Obj][bp.Path+".#text"].(StrV)
+		if !has {
+			cur = StrV{Known: true}
+		}
+		if name == "(*strings.Builder).Len" {
+			cs, _ := toCharsOf(it, cur)
+			return it.constBV(uint64(len(cs)), 64).signed(), true
+		}
+		return cur, true
+	case "strings.Cut":
+		s, ok1 := args[0].(StrV)
+		sep, ok2 := args[1].(StrV)
+		if !ok1 || !ok2 || !sep.Known || len(sep.S) != 1 {
+			return nil, false
+		}
+		cs, okC := toCharsOf(it, s)
+		if !okC {
+			return nil, false
+		}
+		mk := func(c []BV) StrV {
+			if len(c) == 0 {
+				return StrV{Known: true}
+			}
+			return StrV{Sym: true, Chars: c}
+		}
+		for i, ch := range cs {
+			must, cannot := it.charIs(ch, sep.S[0])
+			if must {
+				return TupleV{mk(cs[:i]), mk(cs[i+1:]), it.constBV(1, 1)}, true
+			}
+			if !cannot {
+				return nil, false
+			}
+		}
+		return TupleV{s, StrV{Known: true}, it.constBV(0, 1)}, true
 	case "strings.Join":
 		// Join of a slice whose elements are known or symbolic strings, with a known separator
 		sl, ok1 := args[0].(SliceV)
@@ -692,6 +784,31 @@ func (it *Interp) textModel(st *state, name string, c *ssa.CallCommon, args []Va
 			}
 			return it.constBV(uint64(b2i(r)), 1), true
 		}
+		if ok1 && ok2 && b.Known && (a.Sym || a.Known) && (name == "strings.HasSuffix" || name == "strings.HasPrefix") {
+			// symbolic text, constant affix: decided when every compared character must or cannot be the
+			// affix character (under the premise)
+			cs, okC := toCharsOf(it, a)
+			if okC {
+				if len(cs) < len(b.S) {
+					return it.constBV(0, 1), true
+				}
+				off := 0
+				if name == "strings.HasSuffix" {
+					off = len(cs) - len(b.S)
+				}
+				all := true
+				for i := 0; i < len(b.S); i++ {
+					must, cannot := it.charIs(cs[off+i], b.S[i])
+					if cannot {
+						return it.constBV(0, 1), true
+					}
+					all = all && must
+				}
+				if all {
+					return it.constBV(1, 1), true
+				}
+			}
+		}
 		return nil, false
 	case "strings.IndexByte", "strings.IndexRune":
 		a, ok1 := args[0].(StrV)
@@ -802,6 +919,49 @@ func (it *Interp) textModel(st *state, name string, c *ssa.CallCommon, args []Va
 			for j < len(f.S) && f.S[j] >= '1' && f.S[j] <= '9' {
 				width = width*10 + int(f.S[j]-'0')
 				j++
+			}
+			if j < len(f.S) && f.S[j] == 'x' && zero && width > 0 && width <= 16 && !plus && argi < va.Len {
+				// %0Nx: exactly N lowercase hexadecimal characters, provided the value is below 16^N
+				v, ok := it.load(st, it.sliceElemPtr(va, argi), types.Typ[types.Int]).(BV)
+				argi++
+				if !ok || v.HasTop() {
+					return OpaqueV{"formatted text"}, true
+				}
+				for k := 4 * width; k < v.W; k++ {
+					it.Obligations = append(it.Obligations, it.T.Not(v.B[k]))
+				}
+				for d := width - 1; d >= 0; d-- {
+					ch := it.topBV(8)
+					nb := make([]*Node, 4)
+					for b := 0; b < 4; b++ {
+						if 4*d+b < v.W {
+							nb[b] = v.B[4*d+b]
+						} else {
+							nb[b] = it.T.zero
+						}
+					}
+					ch.Hex = nb
+					out.Chars = append(out.Chars, ch)
+				}
+				i = j
+				continue
+			}
+			if j < len(f.S) && f.S[j] == 'x' && !zero && width == 0 && !plus && argi < va.Len {
+				// %x of a value whose bits above the low nibble are zero: exactly one hexadecimal character
+				if v, ok := it.load(st, it.sliceElemPtr(va, argi), types.Typ[types.Int]).(BV); ok && !v.HasTop() && v.W >= 4 {
+					small := true
+					for k := 4; k < v.W; k++ {
+						small = small && v.B[k] == it.T.zero
+					}
+					if small {
+						argi++
+						ch := it.topBV(8)
+						ch.Hex = append([]*Node{}, v.B[0:4]...)
+						out.Chars = append(out.Chars, ch)
+						i = j
+						continue
+					}
+				}
 			}
 			if j >= len(f.S) || f.S[j] != 'd' || !zero || width == 0 || argi >= va.Len {
 				return OpaqueV{"formatted text"}, true
